@@ -26,6 +26,10 @@ func c19(ctx *Ctx) (*Outcome, error) {
 		if i%5 == 0 {
 			c.Args = append(c.Args, "--min-sized-ints")
 		}
+		if i%3 == 1 {
+			// tag families: what the decoders bind by changes, totality does not
+			c.Args = append(c.Args, "--tags", sg.PickOf(r, []string{"json,yaml", "yaml", "json", "yaml,json,custom", "mapstructure,yaml", "json,mapstructure"}))
+		}
 		cases = append(cases, c)
 	}
 	for i := 0; i < ctx.N(32, 160); i++ {
@@ -121,6 +125,9 @@ func c19Shapes(ctx *Ctx) []*sem.Case {
 				if (ai+bi+pos)%2 == 0 {
 					c.Args = []string{"--extra-imports"}
 				}
+				if (ai+bi+pos)%4 == 0 {
+					c.Args = append(c.Args, "--tags", []string{"json,yaml", "yaml"}[(ai+bi)%2])
+				}
 				out = append(out, c)
 			}
 		}
@@ -149,6 +156,40 @@ func c19Shapes(ctx *Ctx) []*sem.Case {
 				`[null,[[1]]]`, `[[null],[[1],[2]]]`, `[[[1]],null,[[2],[3]]]`, `[]`, `[[]]`, `[[[]]]`, `[[[1]],[[2]],[[3]],[[4]],[[5]]]`} {
 				v, err := jsonx.Parse([]byte(`{"cells":` + text + `,"opt":"x"}`))
 				if err == nil {
+					c.Docs = append(c.Docs, docgen.Doc{V: v, Class: "ragged", Label: text})
+				}
+			}
+			out = append(out, c)
+		}
+	}
+	// declared properties next to additionalProperties of every kind (true, {}, multi-type, typed, object) under every
+	// tag family, with and without the YAML methods
+	for ai, ap := range []func(s *sg.Schema){
+		func(s *sg.Schema) { s.AddPropsBool = sg.Bp(true) },
+		func(s *sg.Schema) { s.AddProps = &sg.Schema{} },
+		func(s *sg.Schema) { s.AddProps = &sg.Schema{Types: []string{"integer"}} },
+		func(s *sg.Schema) {
+			s.AddProps = &sg.Schema{Types: []string{"object"}, Props: []sg.Prop{{Name: "q", S: &sg.Schema{Types: []string{"integer"}}}}, Required: []string{"q"}}
+		},
+	} {
+		for ti, tags := range []string{"", "json,yaml", "yaml", "json", "yaml,mapstructure", "json,yaml,custom"} {
+			obj := &sg.Schema{Types: []string{"object"}, Props: []sg.Prop{{Name: "name", S: &sg.Schema{Types: []string{"string"}, MinLen: 1}}, {Name: "n", S: &sg.Schema{Types: []string{"integer"}}}}, Required: []string{"name"}}
+			ap(obj)
+			// the sibling with typed additional properties brings the imports the collect-the-rest block needs (recorded
+			// finding addprops-true-missing-imports: alone, the untyped variants do not build)
+			labels := &sg.Schema{Types: []string{"object"}, Props: []sg.Prop{{Name: "owner", S: &sg.Schema{Types: []string{"string"}}}}, AddProps: &sg.Schema{Types: []string{"string"}}}
+			root := &sg.Schema{Types: []string{"object"}, Props: []sg.Prop{{Name: "settings", S: obj}, {Name: "label", S: &sg.Schema{Types: []string{"string"}}}, {Name: "labels", S: labels}}}
+			ap(root)
+			c := &sem.Case{Root: root, Sig: fmt.Sprintf("shape/addprops-%d-tags-%d", ai, ti)}
+			if (ai+ti)%3 != 2 {
+				c.Args = []string{"--extra-imports"}
+			}
+			if tags != "" {
+				c.Args = append(c.Args, "--tags", tags)
+			}
+			for _, text := range []string{`{"settings":{"name":"a","extra":1,"more":{"k":[1]}},"label":"l","top":true}`, `{"settings":{"name":"a"}}`, `{"settings":{"extra":1}}`, `{"settings":{"name":"a","n":"x","e":null}}`, `{"x":{"q":1},"y":{"q":"no"}}`, `{}`,
+				`{"settings":{"name":"a","e1":{"q":2},"e2":"s","e3":5}}`} {
+				if v, err := jsonx.Parse([]byte(text)); err == nil {
 					c.Docs = append(c.Docs, docgen.Doc{V: v, Class: "ragged", Label: text})
 				}
 			}
@@ -186,6 +227,9 @@ func c19Shapes(ctx *Ctx) []*sem.Case {
 			c := &sem.Case{Root: root, Sig: fmt.Sprintf("shape/bag-%s-kw%d", ik.name, wi)}
 			if (ki+wi)%2 == 0 {
 				c.Args = []string{"--extra-imports"}
+			}
+			if (ki+wi)%3 == 0 {
+				c.Args = append(c.Args, "--tags", []string{"json,yaml", "yaml", "json"}[(ki+wi)/3%3])
 			}
 			for _, text := range []string{`[{"k":1}]`, `[[1,2]]`, `[{"k":1},{"k":1}]`, `[[],[]]`, `["a","a"]`, `[1,1.0,1]`, `[null,null]`, `[{"k":[1,{"z":null}]},"a",3,true,null,[[]]]`, `[true,false,true]`, `[]`,
 				`[1e400]`, `["a",{"a":"a"},["a"]]`, `[{}]`, `[{},{}]`} {
